@@ -7,7 +7,10 @@
 use crate::common::*;
 use cadence::prelude::*;
 use cadence::{MetricError, MetricSink, StatsdClient};
+use cadence_dsim::kernel::{self, KConfig, Kernel};
 use cadence_dsim::rng::{Fnv, Rng};
+use cadence_dsim::thread as sthread;
+use std::collections::BTreeMap;
 use serde::{Deserialize, Serialize};
 use std::cell::Cell;
 use std::io;
@@ -48,6 +51,18 @@ pub struct McCase {
     /// a macro must be usable while another macro call is in flight on the same thread
     #[serde(default)]
     pub reentrant_handler: bool,
+    /// concurrent phase (after the sequential one): programs of 2..3 simulated caller threads that
+    /// use the macros at the same time, with scheduling points inside the global client's sink and
+    /// error handler. Refusals are decided per metric text in this phase (schedule-independent).
+    #[serde(default)]
+    pub concurrent: Vec<Vec<McInv>>,
+    #[serde(default)]
+    pub conc_sched: Option<SchedSpec>,
+    #[serde(default)]
+    pub conc_yields: u8,
+    /// in the concurrent phase a metric is refused iff hash(text before ':') % conc_refuse_mod == 0 (0 = never)
+    #[serde(default)]
+    pub conc_refuse_mod: u8,
 }
 
 #[derive(Clone, Debug, Serialize, Deserialize, Default)]
@@ -58,22 +73,51 @@ pub struct ChildReport {
     pub emits: usize,
     pub refused: usize,
     pub calls: usize,
+    #[serde(default)]
+    pub steps: u64,
+    #[serde(default)]
+    pub schedule: Vec<u32>,
 }
 
 pub struct E7;
 
+#[derive(Default)]
 struct Logs {
     emits: Vec<(String, bool)>,
     handler: Vec<String>,
+    /// concurrent phase: per calling task
+    mt_emits: BTreeMap<usize, Vec<(String, bool, u64, u64)>>,
+    mt_handler: BTreeMap<usize, Vec<(String, u64, u64)>>,
 }
 
 struct Scripted {
     logs: Arc<Mutex<Logs>>,
     refuse: Vec<bool>,
+    conc_yields: u8,
+    conc_refuse_mod: u8,
+}
+
+fn metric_head(metric: &str) -> &str {
+    metric.split(':').next().unwrap_or("")
 }
 
 impl MetricSink for Scripted {
     fn emit(&self, metric: &str) -> io::Result<usize> {
+        if let Some(me) = kernel::current_task() {
+            // concurrent phase: the answer depends on the metric only, the call contains scheduling points
+            let enter = kernel::steps();
+            for _ in 0..self.conc_yields {
+                kernel::yield_now();
+            }
+            let head = metric_head(metric);
+            let mut h = Fnv::default();
+            h.bytes(head.as_bytes());
+            let refuse = self.conc_refuse_mod > 0 && h.0 % self.conc_refuse_mod as u64 == 0;
+            kernel::yield_now();
+            let exit = kernel::steps();
+            self.logs.lock().unwrap().mt_emits.entry(me).or_default().push((metric.to_string(), !refuse, enter, exit));
+            return if refuse { Err(io::Error::new(io::ErrorKind::ConnectionRefused, format!("fault#{head}"))) } else { Ok(metric.len()) };
+        }
         let mut l = self.logs.lock().unwrap();
         let i = l.emits.len();
         if self.refuse.get(i).copied().unwrap_or(false) {
@@ -103,7 +147,7 @@ fn build_client(case: &McCase, logs: &Arc<Mutex<Logs>>) -> StatsdClient {
 }
 
 fn build_client_with(case: &McCase, logs: &Arc<Mutex<Logs>>, reentry: Reentry) -> StatsdClient {
-    let mut b = StatsdClient::builder(&case.prefix, Scripted { logs: logs.clone(), refuse: case.refuse.clone() });
+    let mut b = StatsdClient::builder(&case.prefix, Scripted { logs: logs.clone(), refuse: case.refuse.clone(), conc_yields: case.conc_yields, conc_refuse_mod: case.conc_refuse_mod });
     for (k, v) in &case.default_tags {
         b = match k {
             Some(k) => b.with_tag(k, v),
@@ -112,10 +156,20 @@ fn build_client_with(case: &McCase, logs: &Arc<Mutex<Logs>>, reentry: Reentry) -
     }
     if case.handler {
         let l = logs.clone();
+        let conc_yields = case.conc_yields;
         b = b.with_error_handler(move |e: MetricError| {
             use std::error::Error;
             let src = e.source().map(|s| s.to_string()).unwrap_or_default();
-            l.lock().unwrap().handler.push(format!("{:?}|{}|{}", e.kind(), e, src));
+            if let Some(me) = kernel::current_task() {
+                let enter = kernel::steps();
+                for _ in 0..conc_yields {
+                    kernel::yield_now();
+                }
+                let exit = kernel::steps();
+                l.lock().unwrap().mt_handler.entry(me).or_default().push((format!("{:?}|{}|{}", e.kind(), e, src), enter, exit));
+            } else {
+                l.lock().unwrap().handler.push(format!("{:?}|{}|{}", e.kind(), e, src));
+            }
             // the handler reports through the client up to two levels deep:
             // macro -> handler -> macro -> handler -> macro
             let depth = HANDLER_DEPTH.with(|d| d.get());
@@ -306,9 +360,9 @@ pub fn child_run(case: &McCase) -> ChildReport {
     if !case.set_global {
         return rep;
     }
-    let logs_a = Arc::new(Mutex::new(Logs { emits: Vec::new(), handler: Vec::new() }));
-    let logs_b = Arc::new(Mutex::new(Logs { emits: Vec::new(), handler: Vec::new() }));
-    let logs_t = Arc::new(Mutex::new(Logs { emits: Vec::new(), handler: Vec::new() }));
+    let logs_a = Arc::new(Mutex::new(Logs::default()));
+    let logs_b = Arc::new(Mutex::new(Logs::default()));
+    let logs_t = Arc::new(Mutex::new(Logs::default()));
     let reentry_a = if case.reentrant_handler { Reentry::ViaMacro } else { Reentry::None };
     cadence_macros::set_global_default(build_client_with(case, &logs_a, reentry_a));
     if case.second_set {
@@ -319,9 +373,9 @@ pub fn child_run(case: &McCase) -> ChildReport {
     }
     let twin_slot: Arc<Mutex<Option<Arc<StatsdClient>>>> = Arc::new(Mutex::new(None));
     let reentry_t = if case.reentrant_handler { Reentry::ViaTwin(twin_slot.clone()) } else { Reentry::None };
-    let twin = Arc::new(build_client_with(case, &logs_t, reentry_t));
-    *twin_slot.lock().unwrap() = Some(twin.clone());
-    let twin: &StatsdClient = &twin;
+    let twin_arc = Arc::new(build_client_with(case, &logs_t, reentry_t));
+    *twin_slot.lock().unwrap() = Some(twin_arc.clone());
+    let twin: &StatsdClient = &twin_arc;
     for (i, inv) in case.invocations.iter().enumerate() {
         let ev = Counter2 { key: Cell::new(0), val: Cell::new(0), tag: Cell::new(0) };
         let (a0, ah0, t0, th0) = {
@@ -378,16 +432,195 @@ pub fn child_run(case: &McCase) -> ChildReport {
         }
         rep.emits += ae.len();
     }
+    if !case.concurrent.is_empty() {
+        concurrent_phase(case, &twin_arc, &logs_a, &logs_t, &mut rep);
+    }
+    if !logs_b.lock().unwrap().mt_emits.is_empty() || !logs_b.lock().unwrap().mt_handler.is_empty() {
+        viol("macro.second-set-client-used", "the client of the second (ignored) set_global_default received metrics in the concurrent phase".into(), &mut rep);
+    }
     if !logs_b.lock().unwrap().emits.is_empty() || !logs_b.lock().unwrap().handler.is_empty() {
         viol("macro.second-set-client-used", "the client of the second (ignored) set_global_default received metrics".into(), &mut rep);
     }
     rep
 }
 
+#[derive(Default)]
+struct MtShared {
+    violations: Mutex<Vec<(String, String)>>,
+    probes: Mutex<Vec<String>>,
+    trace: Mutex<Vec<String>>,
+    calls: Mutex<usize>,
+}
+
+fn mt_call<R>(f: impl FnOnce() -> R) -> Result<R, String> {
+    match catch_unwind(AssertUnwindSafe(f)) {
+        Ok(r) => Ok(r),
+        Err(p) => {
+            if kernel::is_abort(&*p) {
+                std::panic::resume_unwind(p);
+            }
+            Err(kernel::take_last_panic().unwrap_or_else(|| kernel::payload_to_string(&*p)))
+        }
+    }
+}
+
+/// One simulated caller thread of the concurrent phase: every macro invocation is compared with
+/// the explicit call on the twin *as seen by this thread* (what this thread handed to either sink,
+/// what either handler was told on this thread).
+fn mt_prog(t: usize, prog: &[McInv], reentrant: bool, twin: &StatsdClient, la: &Mutex<Logs>, lt: &Mutex<Logs>, sh: &MtShared) {
+    let me = kernel::current_task().unwrap_or(0);
+    for (i, inv) in prog.iter().enumerate() {
+        kernel::yield_now();
+        let ev = Counter2 { key: Cell::new(0), val: Cell::new(0), tag: Cell::new(0) };
+        let lens = |l: &Mutex<Logs>| {
+            let l = l.lock().unwrap();
+            (l.mt_emits.get(&me).map(|v| v.len()).unwrap_or(0), l.mt_handler.get(&me).map(|v| v.len()).unwrap_or(0))
+        };
+        let (a0, ah0) = lens(la);
+        let (t0, th0) = lens(lt);
+        let r = mt_call(|| invoke(inv, twin, &ev));
+        *sh.calls.lock().unwrap() += 1;
+        let slice = |l: &Mutex<Logs>, e0: usize, h0: usize| {
+            let l = l.lock().unwrap();
+            let e: Vec<(String, bool)> = l.mt_emits.get(&me).map(|v| v[e0..].iter().map(|x| (x.0.clone(), x.1)).collect()).unwrap_or_default();
+            let h: Vec<String> = l.mt_handler.get(&me).map(|v| v[h0..].iter().map(|x| x.0.clone()).collect()).unwrap_or_default();
+            (e, h)
+        };
+        let (ae, ah) = slice(la, a0, ah0);
+        let (te, th) = slice(lt, t0, th0);
+        let what = format!("concurrent phase, thread {t} invocation #{i} (combo {}, {} tags)", inv.combo, inv.n_tags);
+        sh.trace.lock().unwrap().push(format!("{what}: macro emits {ae:?} handler {ah:?}; explicit emits {te:?} handler {th:?}"));
+        let mut viol = |c: &str, d: String| {
+            let mut v = sh.violations.lock().unwrap();
+            if v.len() < 8 {
+                v.push((c.to_string(), d));
+            }
+        };
+        if let Err(p) = r {
+            viol("macro.panicked-while-set", format!("{what} panicked although a global client is set: {p}"));
+            return;
+        }
+        if ae.len() > 1 && !inv.nested_arg && !reentrant {
+            viol("macro.more-than-one-emit", format!("{what} handed the sink {} strings", ae.len()));
+        }
+        if ae != te {
+            viol("macro.differs-from-explicit-call", format!("{what}: macro sent {ae:?}, the explicit tagged quiet call sent {te:?}"));
+        }
+        if ah != th {
+            viol("macro.handler-differs", format!("{what}: handler of the global client saw {ah:?}, the twin's {th:?}"));
+        }
+        if ae.first().map(|e| !e.1).unwrap_or(false) {
+            sh.probes.lock().unwrap().push("concurrent_refusal".into());
+        }
+        let exp_key = if inv.n_tags <= 1 { 1 } else { 0 };
+        let exp_val = if inv.n_tags <= 1 { 1 } else { 0 };
+        let exp_tag = if inv.n_tags == 1 || inv.n_tags == 2 { 1 } else { 0 };
+        if ev.key.get() != exp_key || ev.val.get() != exp_val || ev.tag.get() != exp_tag {
+            viol("macro.argument-evaluated-not-once", format!("{what}: key expression evaluated {} times, value {} times, instrumented tag expression {} times (expected {exp_key}, {exp_val}, {exp_tag})", ev.key.get(), ev.val.get(), ev.tag.get()));
+        }
+    }
+}
+
+fn concurrent_phase(case: &McCase, twin: &Arc<StatsdClient>, logs_a: &Arc<Mutex<Logs>>, logs_t: &Arc<Mutex<Logs>>, rep: &mut ChildReport) {
+    let sched = case.conc_sched.clone().unwrap_or(SchedSpec { kind: SchedKind::Uniform, seed: 1, depth: 1, explicit: None });
+    let kc = KConfig::new(sched.seed, sched.strategy(120));
+    let sh = Arc::new(MtShared::default());
+    let progs = case.concurrent.clone();
+    let reentrant = case.reentrant_handler;
+    let (la, lt, tw, sh2) = (logs_a.clone(), logs_t.clone(), twin.clone(), sh.clone());
+    let r = Kernel::run(kc, move || {
+        let mut hs = Vec::new();
+        for (t, p) in progs.iter().enumerate().skip(1) {
+            let (la, lt, tw, sh, p) = (la.clone(), lt.clone(), tw.clone(), sh2.clone(), p.clone());
+            hs.push(sthread::spawn_named(&format!("user{t}"), move || mt_prog(t, &p, reentrant, &tw, &la, &lt, &sh)));
+        }
+        if let Some(p0) = progs.first() {
+            mt_prog(0, p0, reentrant, &tw, &la, &lt, &sh2);
+        }
+        kernel::wait_idle();
+        drop(hs);
+    });
+    rep.steps = r.steps;
+    rep.schedule = r.schedule.clone();
+    if let Some(e) = &r.error {
+        rep.violations.push(("macro.harness".into(), format!("concurrent phase: {e}")));
+        return;
+    }
+    for t in &r.tasks {
+        if let Some(p) = &t.panicked {
+            rep.violations.push(("macro.panicked-while-set".into(), format!("concurrent phase: task {} panicked: {p}", t.id)));
+        }
+    }
+    if r.main.is_none() && rep.violations.is_empty() {
+        rep.violations.push(("macro.concurrent-call-never-returned".into(), format!("concurrent phase: the main caller did not finish: {:?}", r.tasks.first().map(|t| (&t.state, &t.label)))));
+    }
+    rep.calls += *sh.calls.lock().unwrap();
+    rep.violations.extend(sh.violations.lock().unwrap().iter().cloned());
+    rep.probes.extend(sh.probes.lock().unwrap().iter().cloned());
+    rep.trace.extend(sh.trace.lock().unwrap().iter().cloned());
+    rep.probes.push("concurrent_phase_ran".into());
+    // reach: two callers inside the global client's sink / handler at the same time
+    let a = logs_a.lock().unwrap();
+    let overlap = |x: (u64, u64), y: (u64, u64)| x.0 < y.1 && y.0 < x.1;
+    let tasks: Vec<&usize> = a.mt_emits.keys().collect();
+    for (i, t1) in tasks.iter().enumerate() {
+        for t2 in tasks.iter().skip(i + 1) {
+            if a.mt_emits[*t1].iter().any(|x| a.mt_emits[*t2].iter().any(|y| overlap((x.2, x.3), (y.2, y.3)))) {
+                rep.probes.push("two_macro_users_in_sink".into());
+            }
+        }
+    }
+    let ht: Vec<&usize> = a.mt_handler.keys().collect();
+    for (i, t1) in ht.iter().enumerate() {
+        for t2 in ht.iter().skip(i + 1) {
+            if a.mt_handler[*t1].iter().any(|x| a.mt_handler[*t2].iter().any(|y| overlap((x.1, x.2), (y.1, y.2)))) {
+                rep.probes.push("two_macro_users_in_handler".into());
+            }
+        }
+    }
+    rep.emits += a.mt_emits.values().map(|v| v.len()).sum::<usize>();
+}
+
 fn hstr(rng: &mut Rng, max: usize) -> String {
     let alphabet = ["a", "b", "x", ".", "_", "é", "0", "-"];
     let n = 1 + rng.usize_below(max);
     (0..n).map(|_| *rng.pick(&alphabet)).collect()
+}
+
+fn gen_inv(prog: &mut Rng, default_tags: &[(Option<String>, String)]) -> McInv {
+    let n_tags = prog.below(4) as u8;
+    McInv {
+        combo: prog.below(22) as u8,
+        n_tags,
+        key: if prog.chance(1, 10) {
+            let mut k = hstr(prog, 8);
+            for i in 0..(40 + prog.usize_below(200)) {
+                k.push(if i % 5 == 0 { '√' } else if i % 3 == 0 { 'é' } else { 'y' });
+            }
+            k
+        } else {
+            hstr(prog, 8)
+        },
+        num: if prog.chance(1, 5) { u64::MAX } else { prog.next_u64() >> prog.below(60) },
+        list_len: prog.usize_below(4),
+        dur: prog.weighted(&[60, 20, 20]) as u8,
+        tags: {
+            let mut t: Vec<(String, String)> = (0..3).map(|_| (hstr(prog, 4), hstr(prog, 4))).collect();
+            // a fifth of the invocations repeat a key: of a default tag, or of another tag
+            if prog.chance(1, 5) {
+                let dk: Vec<&String> = default_tags.iter().filter_map(|(k, _)| k.as_ref()).collect();
+                if !dk.is_empty() && prog.chance(1, 2) {
+                    let i = prog.usize_below(3);
+                    t[i].0 = (*prog.pick(&dk)).clone();
+                } else {
+                    let k = t[0].0.clone();
+                    t[1 + prog.usize_below(2)].0 = k;
+                }
+            }
+            t
+        },
+        nested_arg: n_tags == 0 && prog.chance(1, 4),
+    }
 }
 
 impl Engine for E7 {
@@ -412,7 +645,7 @@ impl Engine for E7 {
     }
 
     fn required_probes(_focus: &str) -> &'static [&'static str] {
-        &["panicked_while_unset", "second_set", "sink_refused_via_macro", "invalid_value_via_macro", "nested_macro_in_argument", "reentrant_handler_ran"]
+        &["panicked_while_unset", "second_set", "sink_refused_via_macro", "invalid_value_via_macro", "nested_macro_in_argument", "reentrant_handler_ran", "concurrent_phase_ran", "two_macro_users_in_sink", "two_macro_users_in_handler", "concurrent_refusal"]
     }
 
     fn generate(rng: &mut Rng, _focus: &str, _tier: Tier) -> McCase {
@@ -431,39 +664,7 @@ impl Engine for E7 {
         let n = 1 + prog.usize_below(14);
         let mut invocations = Vec::new();
         for _ in 0..n {
-            let n_tags = prog.below(4) as u8;
-            invocations.push(McInv {
-                combo: prog.below(22) as u8,
-                n_tags,
-                key: if prog.chance(1, 10) {
-                    let mut k = hstr(&mut prog, 8);
-                    for i in 0..(40 + prog.usize_below(200)) {
-                        k.push(if i % 5 == 0 { '√' } else if i % 3 == 0 { 'é' } else { 'y' });
-                    }
-                    k
-                } else {
-                    hstr(&mut prog, 8)
-                },
-                num: if prog.chance(1, 5) { u64::MAX } else { prog.next_u64() >> prog.below(60) },
-                list_len: prog.usize_below(4),
-                dur: prog.weighted(&[60, 20, 20]) as u8,
-                tags: {
-                    let mut t: Vec<(String, String)> = (0..3).map(|_| (hstr(&mut prog, 4), hstr(&mut prog, 4))).collect();
-                    // a fifth of the invocations repeat a key: of a default tag, or of another tag
-                    if prog.chance(1, 5) {
-                        let dk: Vec<&String> = default_tags.iter().filter_map(|(k, _)| k.as_ref()).collect();
-                        if !dk.is_empty() && prog.chance(1, 2) {
-                            let i = prog.usize_below(3);
-                            t[i].0 = (*prog.pick(&dk)).clone();
-                        } else {
-                            let k = t[0].0.clone();
-                            t[1 + prog.usize_below(2)].0 = k;
-                        }
-                    }
-                    t
-                },
-                nested_arg: n_tags == 0 && prog.chance(1, 4),
-            });
+            invocations.push(gen_inv(&mut prog, &default_tags));
         }
         let rate = *flt.pick(&[0u64, 20, 50, 100]);
         let refuse = (0..n).map(|_| flt.chance(rate, 100)).collect();
@@ -479,7 +680,31 @@ impl Engine for E7 {
             }
             r
         };
-        McCase { prefix, default_tags, handler, refuse, pre_unset, set_global: cfg.chance(19, 20), second_set: cfg.chance(1, 2), invocations, reentrant_handler }
+        let set_global = cfg.chance(19, 20);
+        let mut conc = rng.split(5);
+        let mut concurrent = Vec::new();
+        if set_global && conc.chance(1, 2) {
+            for _ in 0..(2 + conc.usize_below(2)) {
+                let m = 1 + conc.usize_below(4);
+                concurrent.push((0..m).map(|_| gen_inv(&mut conc, &default_tags)).collect());
+            }
+        }
+        let conc_sched = if concurrent.is_empty() { None } else { Some(SchedSpec::generate(&mut conc, &[45, 30, 25, 0, 0])) };
+        McCase {
+            prefix,
+            default_tags,
+            handler,
+            refuse,
+            pre_unset,
+            set_global,
+            second_set: cfg.chance(1, 2),
+            invocations,
+            reentrant_handler,
+            concurrent,
+            conc_sched,
+            conc_yields: conc.below(3) as u8,
+            conc_refuse_mod: *conc.pick(&[0u8, 1, 2, 3]),
+        }
     }
 
     fn execute(case: &McCase, want_trace: bool) -> Outcome {
@@ -513,6 +738,12 @@ impl Engine for E7 {
             }
         };
         out.api_calls = rep.calls as u64;
+        out.steps = rep.steps;
+        if !rep.schedule.is_empty() {
+            out.strategy = case.conc_sched.as_ref().map(|s| s.name()).unwrap_or("process_per_case");
+            out.schedule_hash = hash_schedule(&rep.schedule);
+            out.schedule = rep.schedule.clone();
+        }
         for (c, d) in &rep.violations {
             if c == "macro.harness" {
                 out.harness_error = Some(d.clone());
@@ -530,6 +761,10 @@ impl Engine for E7 {
                 "invalid_value_via_macro" => "invalid_value_via_macro",
                 "nested_macro_in_argument" => "nested_macro_in_argument",
                 "reentrant_handler_ran" => "reentrant_handler_ran",
+                "concurrent_phase_ran" => "concurrent_phase_ran",
+                "two_macro_users_in_sink" => "two_macro_users_in_sink",
+                "two_macro_users_in_handler" => "two_macro_users_in_handler",
+                "concurrent_refusal" => "concurrent_refusal",
                 _ => "other",
             };
             out.probe(name);
@@ -554,8 +789,48 @@ impl Engine for E7 {
         out
     }
 
+    fn pin_schedule(case: &McCase, o: &Outcome) -> McCase {
+        let mut c = case.clone();
+        if let (Some(s), false) = (c.conc_sched.as_mut(), o.schedule.is_empty()) {
+            s.explicit = Some(o.schedule.clone());
+        }
+        c
+    }
+
     fn shrink(case: &McCase) -> Vec<McCase> {
         let mut v = Vec::new();
+        if !case.concurrent.is_empty() {
+            let mut c = case.clone();
+            c.concurrent.clear();
+            c.conc_sched = None;
+            v.push(c);
+            for t in (1..case.concurrent.len()).rev() {
+                if case.concurrent.len() > 2 {
+                    let mut c = case.clone();
+                    c.concurrent.remove(t);
+                    v.push(c);
+                }
+            }
+            for t in 0..case.concurrent.len() {
+                for i in 0..case.concurrent[t].len() {
+                    let mut c = case.clone();
+                    c.concurrent[t].remove(i);
+                    v.push(c);
+                }
+            }
+            if case.conc_yields > 0 {
+                let mut c = case.clone();
+                c.conc_yields -= 1;
+                v.push(c);
+            }
+            if let Some(s) = &case.conc_sched {
+                for s2 in s.shrink() {
+                    let mut c = case.clone();
+                    c.conc_sched = Some(s2);
+                    v.push(c);
+                }
+            }
+        }
         for i in 0..case.invocations.len() {
             let mut c = case.clone();
             c.invocations.remove(i);
